@@ -167,9 +167,20 @@ def set_line(tx: dict, kw: dict, idmap: Dict[str, int], exc: Optional[str]) -> O
     return '\t'.join(['S', 'set'] + tx_fields(tx) + [vf] + cleave_fields(kw, exc))
 
 
-def parse_entry(entry: str, tx_id: str, idmap: Dict[str, int]):
+def parse_entry(entry: str, tx_id: str, idmap: Dict[str, int], seq: Optional[str] = None):
     """(ids, sect, w2f, problem) of a header entry `TX|id|…|[SECT-n]|[W2F-n]|[ORFk]|index`"""
     parts = entry.split('|')
+    dup = sorted({p for p in parts[1:-1] if parts[1:-1].count(p) > 1})
+    if dup:
+        return None, False, False, f'the entry names {dup} more than once'
+    if seq is not None:
+        for p in parts[1:-1]:
+            if re.match(r'^W2F-\d+$', p):
+                n = int(p[4:])
+                # W2F-<n>: the n-th residue (1-based) of the peptide was reassigned W>F
+                if not (1 <= n <= len(seq)) or seq[n - 1] != 'F':
+                    return None, False, True, (f'{p} names residue {n} of the peptide, which is '
+                                               f'{seq[n - 1] if 1 <= n <= len(seq) else "outside it"}, not a reassigned F')
     if parts[0] != tx_id:
         return None, False, False, f'backbone {parts[0]} is not the transcript {tx_id}'
     if len(parts) < 2 or not parts[-1].isdigit():
@@ -214,7 +225,8 @@ def build_input(seed: int, opts: dict):
         gen_ref.make_reference(case, seed, 1, sec_near_start=opts.get('sec_near_start', 0.25),
                                context=opts.get('context', 0.3),
                                **({'sec_lys': opts['sec_lys']} if 'sec_lys' in opts else {}),
-                               start_context=opts.get('start_context', 0.5))
+                               start_context=opts.get('start_context', 0.5),
+                               trp=opts.get('trp', 0.0))
         genome, anno, _ = gen_ref.load_reference(case)
         recs = []
         if opts.get('coding_only') and not any(m.is_protein_coding for m in anno.transcripts.values()):
@@ -227,7 +239,8 @@ def build_input(seed: int, opts: dict):
                                            max_size=opts.get('max_size', 4),
                                            snv_frac=opts.get('snv_frac', 0.55),
                                            window=opts.get('window', 40),
-                                           special=special)
+                                           special=special,
+                                           focus_at=case.meta.get('planted_trp', {}).get(tx_id))
         for (ptx, ppos, palt, _motif) in case.meta.get('planted_context', []):
             # the SNV that flips the planted cleavage context (+ sometimes nothing else near it)
             try:
@@ -237,6 +250,14 @@ def build_input(seed: int, opts: dict):
             if rec is not None and rec.id not in {r.id for r in recs}:
                 recs.append(rec)
                 case.meta['context_snv'] = case.meta.get('context_snv', 0) + 1
+        if opts.get('silent_pair', 0) > 0:
+            for tx_id in anno.transcripts:
+                if rng.random() < opts['silent_pair']:
+                    trip = gen_ref.silent_pair(anno, genome, tx_id, rng)
+                    have = {r.id for r in recs}
+                    if len(trip) == 3 and not any(r.id in have for r in trip):
+                        recs += trip
+                        case.meta['silent_pair'] = 1
         if opts.get('junction_mnv', 0) > 0:
             for tx_id in anno.transcripts:
                 if rng.random() < opts['junction_mnv']:
@@ -367,6 +388,10 @@ def cv_worker(job):
             out['stats']['junction_snv_pair_with_exon_deletion'] = 1
         if case.meta.get('planted_start_context'):
             out['stats']['planted_start_context'] = 1
+        if case.meta.get('silent_pair'):
+            out['stats']['synonymous_snv_pair_in_one_codon'] = 1
+        if case.meta.get('planted_trp'):
+            out['stats']['planted_tryptophan_cluster'] = 1
         if any(isinstance(v[5], tuple) for v in tx['vars']):
             out['stats']['with_nested_in_splicing_insertion'] = 1
         out['stats'][f'enzyme_{kw["cleavage_rule"]}'] = 1
@@ -416,7 +441,7 @@ def cv_worker(job):
         for seq_, hdrs in run.fasta.items():
             for h in hdrs:
                 for entry in h.split(' '):
-                    ids, sect, w2f, problem = parse_entry(entry, tx_id, idmap)
+                    ids, sect, w2f, problem = parse_entry(entry, tx_id, idmap, seq_)
                     if problem:
                         wl.append((None, seq_, entry, problem, None))
                         continue
